@@ -26,17 +26,22 @@
     - [C09_pyxis_resolve_order_independent]: the same for the whole front half [pyxis_resolve]
       (registration, loop, [finish_build]): same verdict class, and an accepted build resolves every
       input item to the same value, whatever the order;
-    NOT PROVED: that the emitter, applied to two accepted final states that agree on every input
-    item, writes the same files (the generated vftable items are determined by their owners'
-    resolved values and the emitter sorts what it prints, but neither is formalised across two
-    states).  The order-independence of the real implementation, including the files, is decided
-    by the monitor of this property directly on the real code: exhaustive enumeration of first-round
+    - [C09_output_order_independent] (SortUnique.v, EmitInvariance.v, FinalState.v, OutputIndep.v):
+      and the FILES: for every input meeting the side conditions and any two permutation-valued order
+      functions, two accepted runs of the model write exactly the same files ([write_all s1 =
+      write_all s2]).  Ingredients: the emitter reads the registry only as a map and each module's
+      item paths only up to permutation (it sorts them; sorting two permutations by a total
+      antisymmetric order gives one list); the two final registries agree on ALL keys (the generated
+      vftable items are functions of their owners' resolved values, [C04_whole_build]); the module
+      tables differ only in the order of the generated item paths.
+    What the model cannot say -- real hash maps, the file system, process state -- is decided by the
+    monitor of this property directly on the real code: exhaustive enumeration of first-round
     resolution orders and sampled later rounds through the schedule hook, every permutation of
     module-addition order through the API, repeated builds in one process and in fresh processes
     with real hash seeds -- all compared byte for byte. *)
 From Coq Require Import List Bool Permutation NArith String.
 From PyxisModel Require Import Base Grammar SemTypes Registry Sem ScopeLemmas Confluence WholeBuild Monotone
-     OrderIndep Examples.
+     OrderIndep OutputIndep Emit Examples.
 Import ListNotations.
 
 Theorem C09_order_independent_abstract :
@@ -99,6 +104,17 @@ Theorem C09_pyxis_resolve_order_independent : forall ptr mods st0 o1 o2,
   same_build st0 (pyxis_resolve o1 ptr mods) (pyxis_resolve o2 ptr mods).
 Proof. exact pyxis_resolve_order_independent. Qed.
 Print Assumptions C09_pyxis_resolve_order_independent.
+
+(** ** the emitted files *)
+Theorem C09_output_order_independent : forall ptr mods st0 o1 o2,
+  input_state ptr mods = Ok st0 -> collision_free (st_reg st0) -> clean_stateb st0 = true ->
+  (forall l, Permutation (o1 l) l) -> (forall l, Permutation (o2 l) l) ->
+  match pyxis_resolve o1 ptr mods, pyxis_resolve o2 ptr mods with
+  | BOk s1, BOk s2 => write_all s1 = write_all s2
+  | _, _ => True
+  end.
+Proof. exact pyxis_output_order_independent. Qed.
+Print Assumptions C09_output_order_independent.
 
 (** non-vacuity: the input of Examples.v meets both side conditions *)
 Example C09_side_conditions_example :
